@@ -468,6 +468,11 @@ func (b *Branch) try(ctx context.Context, bs Bindings, against interface{}, prop
 			return nil, ts, err
 		}
 	} else {
+		if bs == nil {
+			// Absent bindings are empty bindings (and not a
+			// branch that isn't followed).
+			bs = NewBindings()
+		}
 		bss = []Bindings{bs}
 	}
 
